@@ -251,6 +251,7 @@ type c01EpCase struct {
 	Form     string      `json:"form"`   // label of the value form
 	Family   string      `json:"family"` // "" | random | randomblob | time
 	Shape    string      `json:"shape"`  // one-statement | two-statements | text-two-statements:<which is plain>
+	Flag     string      `json:"flag,omitempty"` // "" | norwrandom | norwtime: the one kind of rewriting the client opted out of
 	n        int
 }
 
@@ -266,7 +267,11 @@ func (c *c01EpCase) text() string {
 		}
 		ss = append(ss, x)
 	}
-	return fmt.Sprintf("%s tx=%v: %s", c.Endpoint, c.Tx, strings.Join(ss, " ;; "))
+	ep := c.Endpoint
+	if c.Flag != "" {
+		ep += "?" + c.Flag
+	}
+	return fmt.Sprintf("%s tx=%v: %s", ep, c.Tx, strings.Join(ss, " ;; "))
 }
 
 type c01EpVal struct {
@@ -365,6 +370,28 @@ func c01EpCases() []*c01EpCase {
 			}
 		}
 	}
+	// A client that opts out of ONE kind of rewriting (norwrandom or norwtime) has opted
+	// out of that kind only: the other kind must still be made deterministic. Statements
+	// here carry only the kind that was not opted out of, so the oracle is the usual one.
+	for _, ep := range c01EpEndpoints {
+		if ep == "load-sql" { // takes no rewrite flags
+			continue
+		}
+		for _, v := range c01EpVals {
+			flag := ""
+			switch v.family {
+			case "time":
+				flag = "norwrandom"
+			case "random", "randomblob":
+				flag = "norwtime"
+			default:
+				continue
+			}
+			for _, t := range c01EpTmpls[:2] {
+				out = append(out, &c01EpCase{Endpoint: ep, Flag: flag, Stmts: []c01EpStmt{mk(v, t.sql)}, Form: v.label, Family: v.family, Shape: "one-statement:" + t.label})
+			}
+		}
+	}
 	for i, c := range out {
 		c.n = i + 1
 	}
@@ -412,6 +439,9 @@ func (e *c01EpEnv) send(c *c01EpCase) (int, string) {
 	if c.Tx {
 		tx = "&transaction"
 	}
+	if c.Flag != "" {
+		tx += "&" + c.Flag
+	}
 	var texts []string
 	for _, s := range c.Stmts {
 		texts = append(texts, c01EpSub(s.SQL, c.n))
@@ -422,9 +452,9 @@ func (e *c01EpEnv) send(c *c01EpCase) (int, string) {
 	case "execute-text":
 		return e.post("/db/execute?x"+tx, "text/plain", strings.Join(texts, ";\n"))
 	case "execute-queued":
-		return e.post("/db/execute?queue", "application/json", c01EpJSONBody(c.Stmts, c.n))
+		return e.post("/db/execute?queue"+tx, "application/json", c01EpJSONBody(c.Stmts, c.n))
 	case "execute-queued-wait":
-		return e.post("/db/execute?queue&wait&timeout=60s", "application/json", c01EpJSONBody(c.Stmts, c.n))
+		return e.post("/db/execute?queue&wait&timeout=60s"+tx, "application/json", c01EpJSONBody(c.Stmts, c.n))
 	case "request":
 		return e.post("/db/request?x"+tx, "application/json", c01EpJSONBody(c.Stmts, c.n))
 	case "load-sql":
@@ -556,7 +586,7 @@ func c01EpRun(t *testing.T, r *kit.Run, cases []*c01EpCase) {
 		if c.Family != "" {
 			rewritten = fmt.Sprint(!unchanged)
 		}
-		r.Distinct(fmt.Sprintf("%s %s %s => %s rewritten=%s => %s lines=%d", c.Endpoint, c.Shape, c.Family, status[c.n], rewritten, outcome, len(live[c.n])))
+		r.Distinct(fmt.Sprintf("%s %s %s %s => %s rewritten=%s => %s lines=%d", c.Endpoint, c.Flag, c.Shape, c.Family, status[c.n], rewritten, outcome, len(live[c.n])))
 		r.SampleEvery(c.n, map[string]any{"write": c.text(), "handed_to_store": c01EpMask(seen), "outcome": outcome})
 		if len(seen) == 0 {
 			r.Violation("C01:endpoint:"+c.Endpoint+":nothing-reached-the-store", fmt.Sprintf("%s: answered 200 but no statement was handed to the Store", c.text()), map[string]any{"case": c})
@@ -567,6 +597,13 @@ func c01EpRun(t *testing.T, r *kit.Run, cases []*c01EpCase) {
 		}
 		var key string
 		switch {
+		case c.Flag != "":
+			// the client opted out of the other kind of rewriting only
+			how := "rewritten-but-diverges"
+			if unchanged {
+				how = "not-rewritten"
+			}
+			key = "C01:endpoint:" + c.Endpoint + ":with-" + c.Flag + ":" + how + ":" + family
 		case strings.HasPrefix(c.Shape, "text-two-statements") && c.Endpoint == "execute-text":
 			// the C14 check knows this one: a statement text carrying several statements
 			key = "C01:unrewritten:ctx-multi-statement-first-plain:" + c.Endpoint
@@ -594,7 +631,7 @@ func TestVerif_C01_endpoints(t *testing.T) {
 		in.Case.n = 1
 		cases = []*c01EpCase{&in.Case}
 	}
-	r.Rule(fmt.Sprintf("%d writes: every write endpoint {execute (JSON), execute (text/plain), queued execute without and with wait, unified request, load of SQL text} x {INSERT, UPDATE, UPSERT, INSERT..SELECT} x %d value forms (14 non-deterministic ones, a literal, a positional and a named parameter where the endpoint takes parameters), plus two-statement requests (transaction flag off/on where the endpoint has one; one SQL text carrying both statements for text/plain and load), sent through the real http.Service handlers on a real single-node Store; database dumped, Store closed without a snapshot, reopened >= 1.2 s later (Raft replays the log), dumped again; the two dumps of every write's table must be equal. distinct = (endpoint, shape, function family, response status, whether the Store was handed a changed text, outcome)", len(cases), len(c01EpVals)))
+	r.Rule(fmt.Sprintf("%d writes: every write endpoint {execute (JSON), execute (text/plain), queued execute without and with wait, unified request, load of SQL text} x {INSERT, UPDATE, UPSERT, INSERT..SELECT} x %d value forms (14 non-deterministic ones, a literal, a positional and a named parameter where the endpoint takes parameters), plus two-statement requests (transaction flag off/on where the endpoint has one; one SQL text carrying both statements for text/plain and load), plus, for every endpoint that takes the rewrite flags, the two single opt-outs {norwrandom with each of the 10 time forms, norwtime with each of the 4 random forms} x {INSERT, UPDATE} (the kind not opted out of must still be rewritten; nothing is demanded of the opted-out kind, which these statements do not contain), sent through the real http.Service handlers on a real single-node Store; database dumped, Store closed without a snapshot, reopened >= 1.2 s later (Raft replays the log), dumped again; the two dumps of every write's table must be equal. distinct = (endpoint, shape, function family, response status, whether the Store was handed a changed text, outcome)", len(cases), len(c01EpVals)))
 	r.Assume("the queue keeps order (property C23): a final ?queue&wait request is used to know that everything queued before it has been written")
 	r.Note("date('now') changes once a day: an endpoint that leaves only that form unrewritten is not seen by a 1.2 s gap; the other 13 forms are")
 	c01EpRun(t, r, cases)
